@@ -60,10 +60,10 @@ class Gen:
         r = self.r
         peers = list(range(self.n))
         p = r.choice(peers)
-        kinds = {'entities': ['spawn', 'spawn', 'despawn', 'spawnc'],
+        kinds = {'entities': ['spawn', 'spawn', 'despawn', 'spawnc', 'flash'],
                  'values': ['spawnc', 'write', 'write', 'write', 'writer', 'excl'],
                  'parents': ['spawn', 'spawn', 'parent', 'parent', 'despawn'],
-                 'mixed': ['spawn', 'spawnc', 'despawn', 'write', 'write', 'writer', 'parent', 'excl', 'mark'],
+                 'mixed': ['spawn', 'spawnc', 'despawn', 'write', 'write', 'writer', 'parent', 'excl', 'mark', 'flash'],
                  'assets': ['asset', 'asset', 'asset', 'asseti', 'spawn', 'sleep'],
                  'skinned': ['spawn', 'spawn', 'skin', 'skin', 'write', 'despawn'],
                  'appcmd': ['spawnc', 'spawn', 'write', 'writer', 'parent', 'appdespawn', 'appdespawn'],
@@ -82,6 +82,16 @@ class Gen:
             self.alive.add(h)
             if marked:
                 self.marked.add(h)
+        elif k == 'flash' and p in self.setup_done:
+            # an entity that lives for one frame of its owner: its spawn and its delete are in flight together
+            # (both may reach a lagging peer within one of that peer's frames)
+            h = self.next_h
+            self.next_h += 1
+            self.emit('OP %d spawn %d 1' % (p, h))
+            self.emit('FRAME %d 1' % p)
+            self.emit('OP %d despawn %d' % (p, h))
+            self.emit('FRAME %d 1' % p)
+            self.owner[h] = p
         elif k == 'despawn' and self.alive:
             h = r.choice(sorted(self.alive))
             q = self.owner[h] if r.random() < 0.6 else p
@@ -306,7 +316,9 @@ def single_writer(seed, nops=14):
     r = random.Random(seed)
     n = r.choice([2, 3, 3, 4])
     t = r.choice([0, 1, 2, 4, 7, 7])
-    lines = _header(r, n, [t])
+    # half of the histories: the writer updates a SECOND component of the same entity in the same frames
+    t2 = r.choice([x for x in [0, 1, 2, 4] if x != t]) if r.random() < 0.5 else None
+    lines = _header(r, n, [t] + ([t2] if t2 is not None else []))
     for p in range(n):
         lines.append('OP %d setup' % p)
     lines.append('ROUND %d' % r.randint(6, 9))
@@ -328,6 +340,8 @@ def single_writer(seed, nops=14):
                 # a Name may be a 100 kB string (large payload) followed by a short one
                 big = (t == 7 and j == 0 and r.random() < 0.35)
                 lines.append('OP %d write 1 %d %d' % (w, t, 100000 + val if big else val))
+                if t2 is not None:
+                    lines.append('OP %d write 1 %d %d' % (w, t2, val))
                 if big or r.random() < 0.6:
                     lines.append('FRAME %d %d' % (w, 1 if big else r.randint(1, 2)))
                 if big:
@@ -439,6 +453,27 @@ def parents_clean(seed, nops=12):
             causal.append((str(c), str(p1), P))
     if late is not None:
         lines.append('OP %d setup' % late)
+        clients = [q for q in peers if q != 0]
+        if clients and r.random() < 0.7:
+            # a link made by an established client reaches the host in the very frame in which the host
+            # handles the joiner's RequestInitialSync (or one frame around it)
+            lines.append('UNTILCONN %d 60' % late)
+            for _ in range(r.randint(0, 2)):
+                lines.append('FRAME %d 1' % late)
+            a = r.choice(clients)
+            c = r.randint(1, k)
+            cands = [q for q in range(1, k + 1) if q != c and c not in ancestors(q) and q != parent.get(c)]
+            if cands:
+                if c in last and last[c] != a:
+                    pass                      # would need a drain before the join: skip the operation
+                else:
+                    par = r.choice(cands)
+                    lines.append('OP %d parent %d %d' % (a, c, par))
+                    parent[c] = par
+                    last[c] = a
+                    lines.append('FRAME %d 2' % a)
+            lines.append('FRAME %d 1' % late)
+            lines.append('FRAME 0 1')
     lines.append('DRAIN 80')
     return '\n'.join(lines) + '\n', dict(parent={str(c): str(p) for c, p in parent.items()}, causal=causal)
 
@@ -522,6 +557,51 @@ def optin(seed, nops=16):
     lines.append('DRAIN 80')
     return '\n'.join(lines) + '\n', dict(enabled=enabled, unmarked=[str(h) for h, _ in unmarked], never_types=never,
                                          excluded=[(u, t) for (u, t) in excluded], excluded_later=excluded_later, common=common)
+
+
+def optin_alone(seed):
+    """C04: the host works ALONE for a while (no client connected yet): it writes registered components
+    and then excludes some of them; a client joins afterwards. Nothing written before or after the
+    exclusion may reach the joiner — neither through the snapshot nor through anything left in a queue."""
+    r = random.Random(seed)
+    common = sorted(r.sample([0, 1, 2, 7], r.randint(1, 3)))
+    lines = ['PEERS 2']
+    enabled = {}
+    for p in range(2):
+        for t in common:
+            lines.append('OP %d reg %d' % (p, t))
+        enabled[p] = (1, 1, 1)
+        lines.append('OP %d switches 1 1 1' % p)
+    lines.append('OP 0 setup')
+    lines.append('ROUND %d' % r.randint(3, 6))
+    val, excluded_later = 10, []
+    ents = []
+    for h in range(1, r.randint(2, 4) + 1):
+        t = r.choice(common)
+        val += 1
+        lines.append('OP 0 spawn %d 1 %d:%d' % (h, t, val))
+        ents.append((h, t))
+    lines.append('FRAME 0 %d' % r.randint(1, 3))
+    for (h, t) in ents:
+        if r.random() < 0.7:
+            val += 1
+            lines.append('OP 0 write %d %d %d' % (h, t, val))
+            k = r.randint(0, 2)
+            if k:
+                lines.append('FRAME 0 %d' % k)
+            lines.append('OP 0 excl %d %d 1' % (h, t))
+            lines.append('EXCLUDED_FROM_HERE %d %d' % (h, t))
+            excluded_later.append((str(h), t))
+            if r.random() < 0.5:
+                val += 1
+                lines.append('OP 0 write %d %d %d' % (h, t, val))
+            k = r.randint(0, 2)
+            if k:
+                lines.append('FRAME 0 %d' % k)
+    lines.append('OP 1 setup')
+    lines.append('DRAIN 80')
+    return '\n'.join(lines) + '\n', dict(enabled=enabled, unmarked=[], never_types=[t for t in [0, 1, 2, 7] if t not in common],
+                                         excluded=[], excluded_later=excluded_later, common=common)
 
 
 def join(seed, nops=14):
@@ -637,10 +717,14 @@ def session(seed):
             removed.append(p)
             lines.append('FRAME %d %d' % (p, r.randint(4, 7)))
             lines.append('FRAME 0 3')
+    host_removed = False
     if r.random() < 0.3:
         lines.append('OP 0 removetransports')
         lines.append('FRAME 0 5')
+        host_removed = True
     lines.append('ROUND 6')
+    if not removed and not host_removed:
+        lines.append('DRAIN 40')          # every join completes: each joiner must have seen InitialSyncFinished once
     return '\n'.join(lines) + '\n', dict(removed=removed)
 
 
